@@ -474,6 +474,12 @@ func canonical(text string, o *observation, g *rig) string {
 // the secrets: the run directory, ports (static: port → name), timestamps, durations, ids.
 func canonicalWith(text, dir string, static map[string]string) string {
 	text = strings.ReplaceAll(text, dir, "<DIR>")
+	// times and durations first: a duration in nanoseconds can happen to equal a port number of this run
+	// and would then be taken for that port (seen once: `"duration":<API>` in one of the two runs)
+	text = reTimeText.ReplaceAllString(text, "time=<T>")
+	text = reTimeJSON.ReplaceAllString(text, `"time":"<T>"`)
+	text = reDurText.ReplaceAllString(text, "$1=<D>")
+	text = reDurJSON.ReplaceAllString(text, `"$1":"<D>"`)
 	// a port of this run may also stand alone (`*:port` of a credentials entry, port="…" attributes)
 	for _, port := range sortedKeys(static) {
 		if port == "" {
@@ -493,10 +499,6 @@ func canonicalWith(text, dir string, static map[string]string) string {
 		}
 		return "127.0.0.1:<EPH>"
 	})
-	text = reTimeText.ReplaceAllString(text, "time=<T>")
-	text = reTimeJSON.ReplaceAllString(text, `"time":"<T>"`)
-	text = reDurText.ReplaceAllString(text, "$1=<D>")
-	text = reDurJSON.ReplaceAllString(text, `"$1":"<D>"`)
 	text = reIDText.ReplaceAllString(text, "$1=<ID>")
 	text = reIDJSON.ReplaceAllString(text, `"$1":"<ID>"`)
 	text = reBracket.ReplaceAllString(text, "[<ID>]")
